@@ -212,6 +212,10 @@ func (r *renderer) emitterOpts(em string) []string {
 		return []string{r.cffN + ".WithEmitter(" + r.tr(e(0)) + ")", r.cffN + ".WithEmitter(" + r.tr(e(1)) + ")"}
 	case "stack":
 		return []string{r.cffN + ".WithEmitter(" + r.tr(fmt.Sprintf("%s.EmitterStack(%s.EmitterStack(%s, %s), %s)", r.cffN, r.cffN, e(0), e(1), e(2))) + ")"}
+	case "shared3":
+		// two stacks derived from one shared base stack (a base of three has spare capacity)
+		fmt.Fprintf(&r.identDcl, "\tembase := %s.EmitterStack(%s, %s, %s)\n\temA := %s.EmitterStack(embase, %s)\n\temB := %s.EmitterStack(embase, %s)\n", r.cffN, e(0), e(1), e(2), r.cffN, e(3), r.cffN, e(4))
+		return []string{r.cffN + ".WithEmitter(" + r.tr("emA") + ")", r.cffN + ".WithEmitter(" + r.tr("emB") + ")"}
 	}
 	return nil
 }
@@ -225,8 +229,24 @@ func EmitterCount(em string) int {
 		return 2
 	case "stack":
 		return 3
+	case "shared3":
+		return 5
 	}
 	return 0
+}
+
+// EmitterGroups partitions the emitters of a configuration into groups that
+// must each observe identical event sequences; Primary is an emitter that is
+// registered exactly once (its sequence is what a lone emitter would see).
+func EmitterGroups(em string) (groups [][]int, primary int) {
+	if em == "shared3" {
+		return [][]int{{0, 1, 2}, {3, 4}}, 3
+	}
+	var g []int
+	for i := 0; i < EmitterCount(em); i++ {
+		g = append(g, i)
+	}
+	return [][]int{g}, 0
 }
 
 func (r *renderer) flowCall(decl *strings.Builder) string {
@@ -503,6 +523,9 @@ func Render(p *Program, pkg, modPath string) string {
 	case "other":
 		fmt.Fprintf(&b, "\ttime \"%s/othertime\"\n", modPath)
 	}
+	if p.F.DebugImp == "other" {
+		fmt.Fprintf(&b, "\t\"%s/ext/debug\"\n", modPath)
+	}
 	if p.F.CffAlias != "" {
 		fmt.Fprintf(&b, "\t%s \"go.uber.org/cff\"\n", p.F.CffAlias)
 	} else {
@@ -528,6 +551,9 @@ func Render(p *Program, pkg, modPath string) string {
 		b.WriteString("var _ = tm.Second\n\n")
 	case "other":
 		b.WriteString("var _ = time.Marker\n\n")
+	}
+	if p.F.DebugImp == "other" {
+		b.WriteString("var _ = debug.Marker\n\n")
 	}
 	fmt.Fprintf(&b, "func init() { probe.Register(%q, `%s`, run_%s) }\n\n", p.ID, p.JSON(), p.ID)
 	b.WriteString(r.top.String())
